@@ -490,6 +490,8 @@ class CompositeFrontend(ConstrainedFrontend):
 
             for v in s.variables:
                 merged._solvers[v] = s
+            # nothing is known about its satisfiability from the new solver's point of view
+            merged._unchecked_solvers.add(s)
 
         noncommon_solvers = [[s for s in cs._solver_list if id(s) not in common_ids] for cs in [self, *others]]
 
